@@ -18,7 +18,10 @@ def gen_cases(chk):
                         allow=("calibrate", "checkpoint", "restore") if i % 4 else
                         ("calibrate", "checkpoint", "restore", "set_samplers", "set_scheduler"), rl=rl, prec_prob=6)
         if rl:
-            c["palette"] = [abs(x) + 0.125 for x in c["palette"]]      # reward is a relative improvement: keep losses > 0
+            # reward is a relative improvement (prev - new) / prev: keep losses >= 0 (no division by zero), but do
+            # include an exact zero, which is a legitimate best loss
+            c["palette"] = [abs(x) + 0.125 for x in c["palette"]] + ([0.0, 0.0] if i % 2 else [])
+            rng.shuffle(c["palette"])
         cases.append(c)
     # the four constructor combinations
     for has_s in (False, True):
